@@ -9,6 +9,7 @@
    mode 3: mode 1 plus drops: a pick 100+u drops task u if it is waiting for a lock.
    mode 4: the tasks are the children of one futures_util::future::join_all; last field = parent polls
            (a non-empty schedule = group sizes of a nested join_all: same poll order, ignored here).
+   mode 7: through minidump_processor::process_minidump (one thread per task, one frame per lookup);
    mode 5: multi-threaded tokio runtime; mode 6: join_all polled by hand, possibly > 30 children (FuturesUnordered).
            The schedule is not under the case's control: the model runs round-robin and only the
            schedule-independent fields are printed (sorted log; c12_quiescent_observables_schedule_independent).
@@ -61,7 +62,7 @@ let () =
           add (pres (o_results o)); add ";";
           add (pn (o_req o) ^ "/" ^ pn (o_proc o)); add ";";
           add (pstats (o_stats o)); add ";"; add (pn (o_rounds o))
-        end else if mode = 5 || mode = 6 then begin
+        end else if mode = 5 || mode = 6 || mode = 7 then begin
           let o = run_case ts scripts (nat_of_int nleaf) [] in
           if o_hung o then add "HUNG;" else add "OK;";
           add (join "." string_of_int (List.sort compare (List.map int_of_nat (o_log o)))); add ";-;";
